@@ -82,6 +82,35 @@ CHECKS = {
         "note": "Band: boundary distance < 1e-9*scale; shape answers that flip under 1e-6 growth/shrink are don't-cares; "
                 "circles additionally 0.2 % (64-gon export).",
     },
+    "C01": {
+        "technique": "property-based testing: Hypothesis-generated schema-expressible scenarios + planning problems x "
+                     "decimal precisions; round-trip oracle against the generating recipe (structural snapshot, reals "
+                     "within 10^-d, discrete values exact, two-directional diff)",
+        "text": "Thousands of scenarios per run over every obstacle role, shape kind, expressible state class (incl. "
+                "custom attribute subsets), exact / interval / region values, signs, lights, stop lines, intersections, "
+                "goal shapes / goal lanelets, header and location, precision 1..12; compared element by element with "
+                "the recipe. One recorded finding (sign 'virtual' lost) has its own facet. Exploration only.",
+        "note": "Enum domains are computed from the shipped XSD; initial time step 0 and the other schema limits "
+                "narrow the domain; state class identity only for specific classes.",
+    },
+    "C08": {
+        "technique": "property-based testing: goal regions and query states generated RELATIVE to the goal (inside / "
+                     "outside / on the boundary / shifted by 2 pi) against an independent three-valued evaluation of "
+                     "the specification (Fraction intervals, own containment, arc membership)",
+        "text": "30k generated cases per quick run over kinematic, point-mass and custom (vx,vy) states, lanelet goals, "
+                "long / wrapping / int-valued angle intervals and trajectories for goal_reached. Exploration only.",
+        "note": "Don't-care bands: 1e-9*scale at shape boundaries and arc ends, 1e-9*(1+v) for point-mass speed.",
+    },
+    "C19": {
+        "technique": "property-based testing: Hypothesis-generated scenes x draw parameters rendered on the Agg "
+                     "backend; totality, differential content oracle (patches collected by the renderer vs "
+                     "occupancies recomputed from the recipe), introspective parameter-propagation check",
+        "text": "Hundreds of full renders per quick run over all obstacle roles, uncertain states, signs, lights, "
+                "intersections, 211 boolean flags, draw_ids filters and time windows before/inside/after horizons; "
+                "thousands of propagation cases over every BaseParam subclass. Exploration only.",
+        "note": "Agg backend only; window end accepted inclusive or exclusive; content judged in the configuration "
+                "the statement fixes.",
+    },
 }
 
 NOT_APPLICABLE = [{"property_id": p, "reason": "check not built yet (work in progress; will be claimed once its "
